@@ -186,7 +186,7 @@ def tokens_equal(ck, exe, quick):
             if d[f] != base:
                 # rustfmt's `merge_derives` folds consecutive #[derive(..)] attributes into one (only possible when the user adds a second
                 # derive attribute through an annotation or callback): same traits, different tokens
-                md = lambda t: re.sub(r"\) \] # \[ derive \( ", " , ", dec(t[3:]))
+                md = lambda t: re.sub(r" \) \] # \[ derive \( ", " , ", dec(t[3:]))
                 if f == "rustfmt" and md(base) == md(d[f]):
                     ck.violation("C15-tokens-differ:rustfmt:merge-derives", "rustfmt merges two consecutive derive attributes into one: the token sequence differs from the unformatted bindings",
                                  {"header": h, "none": dec(base[3:])[:400], f: dec(d[f][3:])[:400]})
